@@ -24,11 +24,13 @@ var _ imap.UID // used by //@ func headers
 // cleared or replaced by any decoder method ("sticky").
 
 //@ rule (dec *Decoder)
-//@   props C02:post,pre@call C04:post,pre@call C05:post,pre@call C06:bounds,assert-type,div0,panic-unreachable,pre@call
+//@   props C02:post,pre@call C04:post,pre@call C05:post,pre@call C06:bounds,assert-type,div0,panic-unreachable,pre@call C11:post,pre@call
 //@   post-all
 //@   loopinv old(dec.err) != nil ==> dec.err == old(dec.err)
+//@   loopinv dec.listDepth == old(dec.listDepth)
 //@   requires dec != nil
 //@   ensures old(dec.err) != nil ==> dec.err == old(dec.err)
+//@   ensures dec.listDepth == old(dec.listDepth)
 //@   exclude List ExpectList ExpectNList Func
 
 //@ func (dec *Decoder) returnErr(err error) (result bool)
@@ -62,6 +64,7 @@ var _ imap.UID // used by //@ func headers
 //@ func (dec *Decoder) List(f func() error) (isList bool, err error)
 //@   props C02:post,pre@call C04:post,pre@call C05:post,pre@call C06:bounds,assert-type,div0,panic-unreachable,pre@call C01:post C11:post
 //@   assumes old(dec.err) != nil ==> dec.err == old(dec.err)
+//@   assumes __called("f") ==> dec.listDepth == old(dec.listDepth)
 //@   ensures !__called("f") ==> dec.listDepth == old(dec.listDepth)
 //@   ensures __called("f") ==> old(dec.listDepth)+1 < maxListDepth
 //@   ensures[C11] err != nil && !__called("f") ==> dec.err != nil
@@ -262,6 +265,26 @@ func IsLiteralCancelled(err error) bool {
 //@   props C12:post
 //@   ensures[C12] __called("ContinuationRequest.Wait") && __failed("ContinuationRequest.Wait") && old(enc.err) == nil ==> IsLiteralCancelled(enc.err)
 
+// A cancelled continuation request never looks like a granted one: Cancel
+// always records an error (also when called with nil, as completeCommand does
+// for a command that completed successfully), Done records none of its own,
+// and Wait reports exactly the recorded error.
+//
+//@ func (cont *ContinuationRequest) Cancel(err error)
+//@   props C18:post C12:post
+//@   ensures cont.err != nil
+//@   ensures err != nil ==> cont.err == err
+//@   ensures cont.text == old(cont.text)
+
+//@ func (cont *ContinuationRequest) Done(text string)
+//@   props C18:post
+//@   ensures cont.err == old(cont.err) && cont.text == text
+
+//@ func (cont *ContinuationRequest) Wait() (text string, err error)
+//@   props C18:post
+//@   ensures err == cont.err && text == cont.text
+//@   ensures cont.err == old(cont.err)
+
 // FlagGrammar: flag-keyword / flag-extension = ["\"] 1*ATOM-CHAR.
 //
 //@ pure
@@ -303,8 +326,17 @@ func FlagGrammar(s string) bool {
 //@ func (dec *Decoder) Text(ptr *string) (result bool)
 //@   modifies ptr
 
+// Quoted: the value is made of exactly the bytes read between the quotes
+// (after dropping the escape character): nothing but the byte just read is
+// ever appended to it.
+//
 //@ func (dec *Decoder) Quoted(ptr *string) (result bool)
+//@   props C01:callsite C02:callsite
 //@   modifies ptr
+//@   callsite Builder.WriteByte(b *strings.Builder, ch byte) requires int(ch) == __result("Decoder.readByte")
+//@   callsite Builder.WriteRune(b *strings.Builder, r rune) requires false
+//@   callsite Builder.WriteString(b *strings.Builder, str string) requires false
+//@   callsite Builder.Write(b *strings.Builder, p []byte) requires false
 
 //@ func (dec *Decoder) String(ptr *string) (result bool)
 //@   modifies ptr
